@@ -384,6 +384,49 @@ fn prim_queries(ctx: &mut Ctx, p: &Prim, rng: &mut Rng) {
     }
 }
 
+/// the remaining public constructors and small queries, over display-scale values
+fn constructors(ctx: &mut Ctx, rng: &mut Rng) {
+    use embedded_graphics::geometry::{AnchorPoint, AnchorX, AnchorY};
+    use embedded_graphics::primitives::CornerRadiiBuilder;
+    let p = |rng: &mut Rng| Point::new(rng.biased_i32(1024), rng.biased_i32(1024));
+    let (a, b, c) = (p(rng), p(rng), p(rng));
+    let (w, h, d) = (rng.biased_u32(1024), rng.biased_u32(1024), rng.biased_u32(1024));
+    let (s0, s1) = (zoo::gen_angle(rng), zoo::gen_angle(rng));
+    let n = rng.biased_i32(1024);
+    let case = || format!("constructors a={:?} b={:?} c={:?} w={} h={} d={} angles {} {} n={}", (a.x, a.y), (b.x, b.y), (c.x, c.y), w, h, d, s0, s1, n);
+    monitored(ctx, "alternative constructors", &case, || {
+        let r = Rectangle::with_corners(a, b);
+        let r2 = Rectangle::with_center(c, Size::new(w, h));
+        let mut acc = r.center() + r2.center() + r.anchor_point(AnchorPoint::BottomRight);
+        acc += Point::new(r2.anchor_x(AnchorX::Center), r2.anchor_y(AnchorY::Bottom));
+        let r3 = r2.resized(Size::new(h, w), AnchorPoint::Center).offset(n.clamp(-1024, 1024)).envelope(&r).intersection(&r2);
+        acc += r3.top_left + r2.resized_width(d, AnchorX::Right).top_left + r2.resized_height(d, AnchorY::Center).top_left;
+        acc += r3.bottom_right().unwrap_or_default();
+        let _ = (r3.rows(), r3.columns(), r3.is_zero_sized());
+        let ci = Circle::with_center(a, d);
+        acc += ci.center() + ci.bounding_box().top_left;
+        let el = Ellipse::with_center(b, Size::new(w, h));
+        acc += el.center();
+        let arc = Arc::with_center(a, d, s0.deg(), s1.deg());
+        let arc2 = Arc::from_circle(ci, s1.deg(), s0.deg());
+        acc += arc.center() + arc2.to_circle().center() + arc.bounding_box().top_left;
+        let se = Sector::with_center(b, d, s0.deg(), s1.deg());
+        let se2 = Sector::from_circle(ci, s0.deg(), s1.deg());
+        acc += se.center() + se2.to_circle().center();
+        let l = Line::with_delta(a, Point::new(n, -n));
+        acc += l.midpoint() + l.delta() + l.bounding_box().top_left;
+        let t = Triangle::from_slice(&[a, b, c]);
+        acc += t.bounding_box().top_left;
+        let radii = CornerRadiiBuilder::new().all(Size::new(w, h)).top(Size::new(d, d)).right(Size::new(h, w)).bottom_left(Size::new(w, d)).top_right(Size::new(d, h)).build();
+        let rr = RoundedRectangle::new(r2, radii);
+        let rr2 = RoundedRectangle::with_equal_corners(r, Size::new(d, w));
+        acc += rr.confine_radii().bounding_box().top_left + rr2.bounding_box().top_left;
+        let _ = (s0.deg().normalize(), s1.deg().abs(), s0.deg().to_radians(), s1.deg().to_degrees());
+        acc
+    });
+    ctx.nontrivial(egmon::rng::hash_str(&case()));
+}
+
 fn gen_text_display(rng: &mut Rng) -> Desc {
     let d = zoo::gen_text(rng, (1, 5));
     if let Desc::Text(mut t) = d {
@@ -574,5 +617,7 @@ fn main() {
         });
         let nr = run.tier(40_000u64, 800_000u64);
         run.generate("rejections", nr, false, 0.2, |ctx, _idx, rng| rejections(ctx, rng));
+        let ncs = run.tier(100_000u64, 4_000_000u64);
+        run.generate("constructors", ncs, false, 0.3, |ctx, _idx, rng| constructors(ctx, rng));
     })
 }
